@@ -458,7 +458,7 @@ def make_core(iscsd, order, backend, kaiser=True):
             )
         },
         ensures={"one_row_per_requested_bin": "len(result) == m", "rows_in_request_order": "forall(0, m, lambda q: result[q][0] == f_indices[q])", "C14.analyzer_state_untouched": "ANALYZER_UNCHANGED"},
-        raises={"RuntimeError": "BACKEND == 'cuda' or BACKEND == 'numba'"},
+        raises={"RuntimeError": "self.config['backend'] == 'cuda' or self.config['backend'] == 'numba'"},
         post_hook=_analyzer_post,
         opts={"callee": False, "ghost_defs": {"WINSPEC": "lambda L, n: KAISERWIN(L + 1, alpha * pi, n) if KAISER else CUSTOMWIN(L, n)"}},
     )
@@ -888,3 +888,98 @@ def bounded_inputs(tier, seed):
 
 BOUNDED["C13.inputs"] = bounded_inputs
 PROPERTY_INFO["C13"] = {"bounded": ["C13.inputs"], "not_decided": ["overflow of finite floats to inf (A-REAL)", "dtype/stride independence is covered by the value-preserving conversion contracts (A-ELEM) and sampled by the bounded check"]}
+
+
+# ---- SpectrumAnalyzer.compute: rows of _lpsd_core -> result arrays (C05, C14) -----------------------------
+# compute() is proved against the *contract* of _lpsd_core (one row per requested bin, in request order, row[0] the
+# bin index - the two clauses every _lpsd_core variant above proves) and for a cached plan satisfying the plan()
+# postconditions (contracts/schedulers_plan.py: plan() returns and caches such a plan or raises).  What it adds:
+# the scatter loop writes bin i's statistics - and nothing else - into slot i of XX, YY, XY, S12, S2, M2; the plan
+# fields are handed over unchanged; the result is built from exactly these.
+
+CORE_REQ = {"C05.requested_bins_exist": "self._plan_cache is not None and forall(0, len(f_indices), lambda q: 0 <= f_indices[q] and f_indices[q] < self._plan_cache['nf'])"}
+CORE_CALL_ENS = {"one_row_per_requested_bin": "len(result) == len(f_indices)", "rows_in_request_order": "forall(0, len(f_indices), lambda q: result[q][0] == f_indices[q])"}
+
+
+def _rows_returns(eng, st, name, fid):
+    from pyvc.loops import fresh_list
+    from pyvc import values as V
+
+    lv = fresh_list(eng, "core_rows", "list[row]")
+    st.assume(V.cmp(">=", lv.n, 0))
+    return eng.alloc(st, lv)
+
+
+def _rows_call_post(eng, st, fid, res):
+    eng.set_ghost("CORE_ROWS", st.heap[res.loc], st)
+
+
+for _u in UNITS:
+    if _u.id.startswith("analysis.SpectrumAnalyzer._lpsd_core["):
+        _u.requires = list(_u.requires) + list(CORE_REQ.items())
+_callee = next(u for u in UNITS if u.id == "analysis.SpectrumAnalyzer._lpsd_core[cross,order=0,auto,kaiser]")
+_callee.opts.update({"callee": True, "call_ensures": CORE_CALL_ENS})
+_callee.returns = _rows_returns
+_callee.call_post = _rows_call_post
+
+
+def make_compute(iscsd):
+    def setup(eng, st, fid, genv):
+        import z3
+        from pyvc import values as V
+        from pyvc.heap import DictV, ListV, ArrV, ObjV
+        from pyvc.values import Sym
+
+        ref = build_analyzer(eng, st, fid, genv, iscsd, 0, "auto", True)
+        nf = eng.fresh("nf", "int")
+        st.assume(V.cmp(">=", nf, 1))
+        pd_ = {"nf": nf}
+        for k_, ty_ in (("f", "real"), ("r", "real"), ("b", "real"), ("m", "real"), ("L", "int"), ("K", "int"), ("navg", "int"), ("O", "real")):
+            pd_[k_] = eng.alloc(st, eng.fresh_array("plan_" + k_, (nf,), ty_))
+        from pyvc.loops import fresh_list
+
+        dl = fresh_list(eng, "plan_D", "list[list[int]]")
+        st.assume(V.cmp("==", dl.n, nf))
+        pd_["D"] = eng.alloc(st, dl)
+        plan = eng.alloc(st, DictV(pd_))
+        o = st.heap[ref.loc]
+        flds = dict(o.fields)
+        flds["_plan_cache"] = plan
+        st.heap[ref.loc] = ObjV(o.cls, flds)
+        genv.update(nf=nf, PLAN=st.heap[plan.loc])
+        st.tags["frozen"]["plan"] = plan.loc
+
+    tag = "cross" if iscsd else "auto"
+    return Unit(
+        id=f"analysis.SpectrumAnalyzer.compute[{tag}]",
+        module=M,
+        func="SpectrumAnalyzer.compute",
+        props=["C05", "C14"],
+        setup=setup,
+        loops={
+            # 0: for chunk in results_list (one chunk, unrolled); 1: the scatter loop over the rows
+            "1": dict(
+                label="scatter",
+                inv={
+                    "written": "forall(0, _i, lambda q: XX[q] == CORE_ROWS[q][2] and YY[q] == CORE_ROWS[q][3] and XY[q] == CORE_ROWS[q][1]"
+                    " and S12[q] == CORE_ROWS[q][4] and S2[q] == CORE_ROWS[q][5] and M2[q] == CORE_ROWS[q][6] and tms[q] == CORE_ROWS[q][7])",
+                },
+            )
+        },
+        ensures={
+            "C05.all_bins_requested_once_in_order": "len(CORE_ROWS) == nf and forall(0, nf, lambda q: CORE_ROWS[q][0] == q)",
+            "C05.bin_statistics_in_their_own_slot": "forall(0, nf, lambda q: result._data['XX'][q] == CORE_ROWS[q][2] and result._data['YY'][q] == CORE_ROWS[q][3] and result._data['XY'][q] == CORE_ROWS[q][1]"
+            " and result._data['S12'][q] == CORE_ROWS[q][4] and result._data['S2'][q] == CORE_ROWS[q][5] and result._data['M2'][q] == CORE_ROWS[q][6])",
+            "C05.array_lengths": "len(result._data['XX']) == nf and len(result._data['YY']) == nf and len(result._data['XY']) == nf and len(result._data['S12']) == nf and len(result._data['S2']) == nf and len(result._data['M2']) == nf",
+            "C05.plan_fields_handed_over": "result._data['f'] is PLAN['f'] and result._data['L'] is PLAN['L'] and result._data['K'] is PLAN['K'] and result._data['navg'] is PLAN['navg'] and result._data['D'] is PLAN['D'] and result._data['r'] is PLAN['r'] and result._data['b'] is PLAN['b'] and result._data['O'] is PLAN['O']",
+            "C05.mode_and_rate": "result.iscsd == ISCSD and result.fs == fs",
+            "C14.analyzer_state_untouched": "ANALYZER_UNCHANGED",
+        },
+        raises={"RuntimeError": True},
+        post_hook=_analyzer_post,
+        opts={"callee": False},
+    )
+
+
+for _iscsd in (False, True):
+    UNITS.append(make_compute(_iscsd))
